@@ -9,6 +9,8 @@ mod report;
 mod rng;
 mod run_pull;
 mod run_sched;
+mod run_vclock;
+mod vclock;
 mod run_seq;
 mod sched;
 mod seq;
@@ -104,6 +106,15 @@ fn check(o: &Opts) -> i32 {
             engines.push("E1-seq");
             run_seq::run_witnesses(o, &mut rep);
             run_seq::run(o, &mut rep);
+            if matches!(o.prop.as_str(), "C01" | "C02" | "C03" | "C17") && o.ops.is_none() {
+                // the interval cases of these properties run on the virtual clock
+                engines.push("E3-vclock");
+                run_vclock::run(o, &mut rep, 4);
+            }
+        },
+        "C16" => {
+            engines.push("E3-vclock");
+            run_vclock::run(o, &mut rep, 1);
         },
         "C06" => {
             engines.push("E2-pull");
@@ -304,6 +315,7 @@ fn replay(o: &Opts) -> i32 {
         Some("E1") => run_seq::replay(o, &parts),
         Some("E4") | Some("E4e") => run_sched::replay(o, &parts),
         Some("E2") => run_pull::replay(o, &parts),
+        Some("E3") => run_vclock::replay(o, &parts),
         _ => {
             eprintln!("unknown engine in case id {}", id);
             2
